@@ -316,6 +316,10 @@ def _parse_nh_struct(text):
     span_matches = re_spans.findall(text)
     deltas = dict(re_deltas.findall(text))
 
+    for key in ('count', 'sum', 'schema', 'zero_threshold', 'zero_count'):
+        if key not in items:
+            raise ValueError("native histogram is missing the field " + key + ": " + text)
+
     count_value = int(items['count'])
     sum_value = int(items['sum'])
     schema = int(items['schema'])
